@@ -488,3 +488,297 @@ Section PadRename2.
     apply (pad_dims_rename_r r r_inj dflt ps t (rename_tensor r t) R). apply teq_refl.
   Qed.
 End PadRename2.
+
+(* ================================================================================== *)
+(* A second whole entry point: Grid.diff / interp / min / max (Model/Dispatch.grid_op) *)
+(* ================================================================================== *)
+From XV Require Import Base.Ops Model.GridOps Model.Dispatch.
+
+Section OpRename.
+  Variable r ra : string -> string.
+  Hypothesis r_inj : injective r.
+  Hypothesis ra_inj : injective ra.
+  Context {A : Type} (o : Ops A) (ofZ : Z -> A).
+
+  Definition rename_call (c : call01 (A:=A)) : call01 (A:=A) :=
+    {| k_func := k_func c; k_axes := map ra (k_axes c); k_to := rename_kw ra (k_to c);
+       k_boundary := rename_kw ra (k_boundary c); k_fill := rename_kw ra (k_fill c) |}.
+
+  Lemma target_pos_rename (a : axis A) (to : kw pos) from :
+    target_pos (rename_axis r ra a) (rename_kw ra to) from = target_pos a to from.
+  Proof.
+    unfold target_pos. destruct to as [v|m]; cbn [rename_kw rename_axis ax_name ax_shifts]; [reflexivity|].
+    rewrite (lookupS_rename ra ra_inj (ax_name a) m). reflexivity.
+  Qed.
+
+  Definition rename_sig3 (x : axis A * pos * pos) : axis A * pos * pos :=
+    (rename_axis r ra (fst (fst x)), snd (fst x), snd x).
+
+  Lemma signature_of_rename (g : grid A) orig to axn :
+    signature_of (rename_grid r ra g) (map r orig) (rename_kw ra to) (ra axn) =
+    map_res rename_sig3 (signature_of g orig to axn).
+  Proof.
+    unfold signature_of, rename_grid. rewrite (find_axis_rename r ra ra_inj g axn).
+    destruct (find_axis g axn) as [a|e]; [|reflexivity]. cbn [bind].
+    rewrite (get_position_name_rename r r_inj ra a orig).
+    destruct (get_position_name a orig) as [pd|e]; [|reflexivity]. cbn [bind fst snd].
+    rewrite target_pos_rename. destruct (target_pos a to (fst pd)); reflexivity.
+  Qed.
+
+  Lemma apply_core_rename_r d d' n f (t : tensor A) : respects t ->
+    teq (apply_core (zero o) (r d) (r d') n f (rename_tensor r t))
+        (rename_tensor r (apply_core (zero o) d d' n f t)).
+  Proof.
+    intros R. split.
+    - cbn [apply_core rename_tensor dims]. rewrite (dremove_rename r r_inj). unfold rename_dims, rename_keys.
+      rewrite map_app. reflexivity.
+    - intros e. cbn [apply_core rename_tensor get]. rewrite (column_rename_r r r_inj t d e R). reflexivity.
+  Qed.
+
+  Lemma apply_core_teq d d' n f (t1 t2 : tensor A) :
+    teq t1 t2 -> teq (apply_core (zero o) d d' n f t1) (apply_core (zero o) d d' n f t2).
+  Proof.
+    intros [H1 H2]. split.
+    - cbn [apply_core dims]. rewrite H1. reflexivity.
+    - intros e. cbn [apply_core get]. f_equal. f_equal. unfold column, size. rewrite H1.
+      apply map_ext. intros i. apply H2.
+  Qed.
+
+  Lemma respects_apply_core d d' n f (t : tensor A) : respects t -> respects (apply_core (zero o) d d' n f t).
+  Proof.
+    intros R e e' H. cbn [apply_core get]. rewrite (H d'). f_equal. f_equal. unfold column.
+    apply map_ext. intros i. apply R. intros x. unfold upd. destruct (String.eqb x d); [reflexivity | apply H].
+  Qed.
+
+  Lemma column_teq (t1 t2 : tensor A) d e : teq t1 t2 -> column t1 d e = column t2 d e.
+  Proof. intros [H1 H2]. unfold column, size. rewrite H1. apply map_ext. intros i. apply H2. Qed.
+
+  Lemma respects_teq (t1 t2 : tensor A) : teq t1 t2 -> respects t2 -> respects t1.
+  Proof. intros [_ H] R e e' He. rewrite !H. apply R, He. Qed.
+
+  Lemma respects_pad (g : grid A) (t p : tensor A) bw b f :
+    respects t -> pad (zero o) g t bw b f = Ok p -> respects p.
+  Proof.
+    intros R. unfold pad. destruct (negb _); [discriminate|]. destruct bw as [ws|]; [|intros H; inversion H; subst; exact R].
+    destruct (forallb _ ws); [intros H; inversion H; subst; exact R|].
+    destruct (resolve_all _ _ _ _ _ ws) as [ps|e]; cbn [bind]; [|discriminate].
+    intros H. inversion H; subst. clear H. revert t R. induction ps as [|q ps IH]; intros t R; [exact R|].
+    unfold pad_dims. cbn [fold_left]. apply IH. apply respects_pad_dim. exact R.
+  Qed.
+
+  (* one axis: same exception, or the renamed result *)
+  Definition rel_res (x y : res (tensor A)) : Prop :=
+    match x, y with
+    | Ok t1, Ok t2 => teq t1 (rename_tensor r t2)
+    | Err e1, Err e2 => e1 = e2
+    | _, _ => False
+    end.
+
+  Lemma step_rename tbl (g : grid A) dssizes c orig (t t' : tensor A) axn :
+    respects t -> teq t' (rename_tensor r t) ->
+    rel_res (step o ofZ tbl (rename_grid r ra g) (rename_dims r dssizes) (rename_call c) (map r orig) t' (ra axn))
+            (step o ofZ tbl g dssizes c orig t axn).
+  Proof.
+    intros R H. unfold step. cbn [rename_call k_to k_func k_boundary k_fill].
+    rewrite signature_of_rename.
+    destruct (signature_of g orig (k_to c) axn) as [[[a from] tp]|e]; [|reflexivity].
+    cbn [map_res bind rename_sig3 fst snd].
+    destruct (select (k_func c) from tp tbl) as [en|e]; [|reflexivity]. cbn [bind].
+    cbn [rename_axis ax_coords]. rewrite (lookupP_rename r from (ax_coords a)).
+    destruct (lookupP from (ax_coords a)) as [din|]; [|reflexivity]. cbn [option_map bind].
+    destruct H as [Hd Hg].
+    assert (M : memS (r din) (dnames (dims t')) = memS din (dnames (dims t))).
+    { rewrite Hd. cbn [rename_tensor dims]. rewrite (dnames_rename r). apply (memS_rename r r_inj). }
+    rewrite M. destruct (negb (memS din (dnames (dims t)))); [reflexivity|].
+    rewrite (lookupP_rename r tp (ax_coords a)).
+    destruct (lookupP tp (ax_coords a)) as [dout|]; [|reflexivity]. cbn [option_map bind].
+    (* the padded arrays *)
+    set (w := match ge_width en with Some w => w | None => (0, 0) end).
+    assert (P : rel_res (if ge_pad_before en
+                         then pad (zero o) (rename_grid r ra g) t' (Some [(ra axn, w)])
+                                  (rename_kw ra (k_boundary c)) (rename_kw ra (k_fill c))
+                         else Ok t')
+                        (if ge_pad_before en
+                         then pad (zero o) g t (Some [(axn, w)]) (k_boundary c) (k_fill c) else Ok t)).
+    { destruct (ge_pad_before en); [|split; assumption].
+      pose proof (pad_rename r ra r_inj ra_inj (zero o) g t (Some [(axn, w)]) (k_boundary c) (k_fill c) R) as PR.
+      cbn [option_map rename_widths rename_keys map fst snd] in PR.
+      (* pad on t' equals pad on the renamed t up to teq *)
+      assert (E : forall bw b f,
+                 match pad (zero o) (rename_grid r ra g) t' bw b f,
+                       pad (zero o) (rename_grid r ra g) (rename_tensor r t) bw b f with
+                 | Ok a1, Ok a2 => teq a1 a2 | Err e1, Err e2 => e1 = e2 | _, _ => False end).
+      { intros bw b f. unfold pad. destruct (negb _); [reflexivity|].
+        destruct bw as [ws|]; [|split; assumption]. destruct (forallb _ ws); [split; assumption|].
+        rewrite Hd. destruct (resolve_all _ _ _ _ _ ws) as [ps|e]; cbn [bind]; [|reflexivity].
+        clear - Hd Hg. assert (T : teq t' (rename_tensor r t)) by (split; assumption). clear Hd Hg.
+        revert T. generalize (rename_tensor r t). revert t'. induction ps as [|q ps IH]; intros t1 t2 T; [exact T|].
+        unfold pad_dims. cbn [fold_left]. apply IH. apply pad_dim_teq. exact T. }
+      specialize (E (Some [(ra axn, w)]) (rename_kw ra (k_boundary c)) (rename_kw ra (k_fill c))).
+      destruct (pad (zero o) (rename_grid r ra g) t' _ _ _) as [a1|e1];
+        destruct (pad (zero o) (rename_grid r ra g) (rename_tensor r t) _ _ _) as [a2|e2]; try contradiction;
+        destruct (pad (zero o) g t _ _ _) as [a3|e3]; try contradiction; cbn [rel_res].
+      - eapply teq_trans; eassumption.
+      - congruence. }
+    assert (RP : forall p, (if ge_pad_before en then pad (zero o) g t (Some [(axn, w)]) (k_boundary c) (k_fill c)
+                            else Ok t) = Ok p -> respects p).
+    { intros p Hp. destruct (ge_pad_before en); [eapply respects_pad; eassumption | inversion Hp; subst; exact R]. }
+    destruct (if ge_pad_before en then pad (zero o) (rename_grid r ra g) t' _ _ _ else Ok t') as [p'|e'];
+      destruct (if ge_pad_before en then pad (zero o) g t _ _ _ else Ok t) as [p|e] eqn:Ep;
+      cbn [rel_res] in P; try contradiction; cbn [bind]; [|subst; reflexivity].
+    specialize (RP p eq_refl).
+    destruct (ge_body en) as [body|]; [|reflexivity]. cbn [bind].
+    assert (C0 : column p' (r din) env0 = column p din env0).
+    { rewrite (column_teq p' (rename_tensor r p) (r din) env0 P).
+      rewrite (column_rename_r r r_inj p din env0 RP). reflexivity. }
+    rewrite C0. set (newlen := List.length (eval o ofZ body (column p din env0))).
+    rewrite (dsize_rename r r_inj dout dssizes).
+    destruct (negb (newlen =? dsize dout dssizes)); [reflexivity|]. cbn [rel_res].
+    eapply teq_trans; [apply apply_core_teq; exact P | apply apply_core_rename_r; exact RP].
+  Qed.
+End OpRename.
+
+Section OpRename2.
+  Variable r ra : string -> string.
+  Hypothesis r_inj : injective r.
+  Hypothesis ra_inj : injective ra.
+  Context {A : Type} (o : Ops A) (ofZ : Z -> A).
+
+  Lemma respects_step tbl (g : grid A) dssizes c orig (t u : tensor A) axn :
+    respects t -> step o ofZ tbl g dssizes c orig t axn = Ok u -> respects u.
+  Proof.
+    intros R. unfold step.
+    destruct (signature_of g orig (k_to c) axn) as [[[a from] tp]|e]; [|discriminate]. cbn [bind].
+    destruct (select (k_func c) from tp tbl) as [en|e]; [|discriminate]. cbn [bind].
+    destruct (lookupP from (ax_coords a)) as [din|]; [|discriminate]. cbn [bind].
+    destruct (negb (memS din (dnames (dims t)))); [discriminate|].
+    destruct (lookupP tp (ax_coords a)) as [dout|]; [|discriminate]. cbn [bind].
+    destruct (ge_pad_before en) eqn:Pb.
+    - destruct (pad (zero o) g t _ (k_boundary c) (k_fill c)) as [p|e] eqn:Ep; [|discriminate]. cbn [bind].
+      destruct (ge_body en) as [body|]; [|discriminate]. cbn [bind].
+      destruct (negb _); [discriminate|]. intros H. inversion H; subst.
+      apply respects_apply_core. eapply respects_pad; eassumption.
+    - cbn [bind]. destruct (ge_body en) as [body|]; [|discriminate]. cbn [bind].
+      destruct (negb _); [discriminate|]. intros H. inversion H; subst.
+      apply respects_apply_core. exact R.
+  Qed.
+
+  Lemma steps_rename tbl (g : grid A) dssizes c orig axes : forall (t t' : tensor A),
+    respects t -> teq t' (rename_tensor r t) ->
+    rel_res r (steps o ofZ tbl (rename_grid r ra g) (rename_dims r dssizes) (rename_call ra c) (map r orig) t' (map ra axes))
+            (steps o ofZ tbl g dssizes c orig t axes).
+  Proof.
+    induction axes as [|axn axes IH]; intros t t' R H; [exact H|].
+    cbn [map steps].
+    pose proof (step_rename r ra r_inj ra_inj o ofZ tbl g dssizes c orig t t' axn R H) as S.
+    destruct (step o ofZ tbl (rename_grid r ra g) (rename_dims r dssizes) (rename_call ra c) (map r orig) t' (ra axn)) as [u'|e'];
+      destruct (step o ofZ tbl g dssizes c orig t axn) as [u|e] eqn:Eu; cbn [rel_res] in S; try contradiction; cbn [bind].
+    - apply IH; [eapply respects_step; eassumption | exact S].
+    - subst. reflexivity.
+  Qed.
+
+  Lemma mapM_sig_rename (g : grid A) orig to axes :
+    match mapM (signature_of (rename_grid r ra g) (map r orig) (rename_kw ra to)) (map ra axes),
+          mapM (signature_of g orig to) axes with
+    | Ok _, Ok _ => True
+    | Err e1, Err e2 => e1 = e2
+    | _, _ => False
+    end.
+  Proof.
+    induction axes as [|axn axes IH]; [exact I|]. cbn [map mapM].
+    rewrite (signature_of_rename r ra r_inj ra_inj g orig to axn).
+    destruct (signature_of g orig to axn) as [x|e]; [|reflexivity]. cbn [map_res bind].
+    destruct (mapM _ (map ra axes)) as [l1|e1]; destruct (mapM (signature_of g orig to) axes) as [l2|e2];
+      try contradiction; cbn [bind]; [exact I | exact IH].
+  Qed.
+
+  Definition rename_pairs (l : list (string * string)) := map (fun p => (r (fst p), r (snd p))) l.
+
+  Lemma assoc_set_rename2 k v (l : list (string * string)) :
+    assoc_set (r k) (r v) (rename_pairs l) = rename_pairs (assoc_set k v l).
+  Proof.
+    induction l as [|[k' v'] l IH]; [reflexivity|].
+    cbn [rename_pairs map assoc_set fst snd]. rewrite (eqb_rename r r_inj).
+    destruct (String.eqb k k'); [reflexivity|]. cbn [map fst snd]. f_equal. exact IH.
+  Qed.
+
+  Lemma lookupS_rename2 d (l : list (string * string)) :
+    lookupS (r d) (rename_pairs l) = option_map r (lookupS d l).
+  Proof.
+    unfold lookupS. induction l as [|[k v] l IH]; [reflexivity|].
+    cbn [rename_pairs map lookup fst snd]. rewrite (eqb_rename r r_inj).
+    destruct (String.eqb d k); [reflexivity | exact IH].
+  Qed.
+
+  Lemma transpose_teq order (t1 t2 : tensor A) : teq t1 t2 -> teq (transpose order t1) (transpose order t2).
+  Proof.
+    intros [H1 H2]. split; [|exact H2]. unfold transpose. cbn [dims]. apply map_ext. intros d.
+    unfold size. rewrite H1. reflexivity.
+  Qed.
+
+  Lemma restore_order_rename (g : grid A) orig axes (u u' : tensor A) :
+    teq u' (rename_tensor r u) ->
+    rel_res r (restore_order (rename_grid r ra g) (map r orig) (map ra axes) u')
+            (restore_order g orig axes u).
+  Proof.
+    intros H. unfold restore_order.
+    assert (M : mapM (fun axn => do a <- find_axis (rename_grid r ra g) axn;
+                                 do old <- get_position_name a (map r orig);
+                                 do new <- get_position_name a (dnames (dims u'));
+                                 Ok (snd old, snd new)) (map ra axes) =
+                map_res rename_pairs
+                        (mapM (fun axn => do a <- find_axis g axn;
+                                          do old <- get_position_name a orig;
+                                          do new <- get_position_name a (dnames (dims u));
+                                          Ok (snd old, snd new)) axes)).
+    { destruct H as [Hd _]. rewrite Hd. cbn [rename_tensor dims]. rewrite (dnames_rename r).
+      induction axes as [|axn axes IH]; [reflexivity|]. cbn [map mapM].
+      unfold rename_grid at 1. rewrite (find_axis_rename r ra ra_inj g axn).
+      destruct (find_axis g axn) as [a|e]; [|reflexivity]. cbn [bind].
+      rewrite (get_position_name_rename r r_inj ra a orig).
+      destruct (get_position_name a orig) as [old|e]; [|reflexivity]. cbn [bind fst snd].
+      rewrite (get_position_name_rename r r_inj ra a (dnames (dims u))).
+      destruct (get_position_name a (dnames (dims u))) as [new|e]; [|reflexivity]. cbn [bind fst snd].
+      rewrite IH. destruct (mapM _ axes) as [l|e]; reflexivity. }
+    rewrite M. destruct (mapM _ axes) as [shifted|e]; cbn [map_res bind]; [|reflexivity].
+    cbn [rel_res].
+    assert (F : forall acc, fold_left (fun (a : list (string * string)) (q : string * string) => assoc_set (fst q) (snd q) a)
+                                      (rename_pairs shifted) (rename_pairs acc) =
+                            rename_pairs (fold_left (fun (a : list (string * string)) (q : string * string) =>
+                                                       assoc_set (fst q) (snd q) a) shifted acc)).
+    { clear M. induction shifted as [|[k v] l IHl]; intros acc; [reflexivity|].
+      cbn [rename_pairs map fold_left fst snd].
+      change (map (fun p : string * string => (r (fst p), r (snd p))) l) with (rename_pairs l).
+      change (map (fun p : string * string => (r (fst p), r (snd p))) acc) with (rename_pairs acc).
+      rewrite assoc_set_rename2. exact (IHl (assoc_set k v acc)). }
+    specialize (F []). change (rename_pairs []) with (@nil (string * string)) in F. rewrite F.
+    set (sh := fold_left _ shifted []).
+    assert (O : map (fun d => match lookupS d (rename_pairs sh) with Some n => n | None => d end) (map r orig) =
+                map r (map (fun d => match lookupS d sh with Some n => n | None => d end) orig)).
+    { rewrite !map_map. apply map_ext. intros d. rewrite lookupS_rename2. destruct (lookupS d sh); reflexivity. }
+    rewrite O. eapply teq_trans; [apply transpose_teq; exact H|].
+    rewrite (transpose_rename r r_inj). apply teq_refl.
+  Qed.
+
+  (* THE theorem for diff / interp / min / max over any number of axes *)
+  Theorem grid_op_rename tbl (g : grid A) dssizes c (t : tensor A) :
+    respects t ->
+    rel_res r (grid_op o ofZ tbl (rename_grid r ra g) (rename_dims r dssizes) (rename_call ra c) (rename_tensor r t))
+            (grid_op o ofZ tbl g dssizes c t).
+  Proof.
+    intros R. unfold grid_op. cbn [rename_tensor dims rename_call k_axes k_to].
+    rewrite (dnames_rename r).
+    pose proof (mapM_sig_rename g (dnames (dims t)) (k_to c) (k_axes c)) as MS.
+    destruct (mapM _ (map ra (k_axes c))) as [l1|e1];
+      destruct (mapM (signature_of g (dnames (dims t)) (k_to c)) (k_axes c)) as [l2|e2]; try contradiction;
+      cbn [bind]; [|subst; reflexivity].
+    pose proof (steps_rename tbl g dssizes c (dnames (dims t)) (k_axes c) t (rename_tensor r t) R
+                             (teq_refl _)) as S.
+    change (rename_call ra c) with (rename_call ra c) in S.
+    destruct (steps o ofZ tbl (rename_grid r ra g) (rename_dims r dssizes) (rename_call ra c)
+                    (map r (dnames (dims t))) (rename_tensor r t) (map ra (k_axes c))) as [u'|e'];
+      destruct (steps o ofZ tbl g dssizes c (dnames (dims t)) t (k_axes c)) as [u|e];
+      cbn [rel_res] in S; try contradiction; cbn [bind]; [|subst; reflexivity].
+    apply restore_order_rename. exact S.
+  Qed.
+End OpRename2.
